@@ -242,6 +242,17 @@ def run_route(r):
             kw["values"] = mk_vals(r["values"])
         cls._InternalCreateWithQuantity(obj, mk_qty(r["q"]), **kw)
         return obj
+    if kind == "fromScalars":
+        from barril.units import Scalar
+
+        scalars = [Scalar(mk_qty(x["q"]), dec(x["v"])) for x in r["scalars"]]
+        if r.get("as_iter"):
+            scalars = iter(scalars)
+        kw = {k: r[k] for k in ("unit", "category") if r.get(k) is not None}
+        return cls.FromScalars(scalars, **kw)
+    if kind == "derived":
+        # a FixedArray with a DERIVED quantity, obtained the only way there is: real arithmetic on two arrays
+        return _PYOP[r["aop"]](run_route(r["a"]), run_route(r["b"]))
     raise ValueError(kind)
 
 
@@ -271,6 +282,11 @@ def route_line(r):
             d["inst"] = r.get("inst")
     elif kind == "cea":
         d.update(dimension=r["dimension"], values=vals_line(r.get("values")))
+    elif kind == "fromScalars":
+        d.update(scalars=[dict(q=qty_line(x["q"]), v=qstr(exact(float(dec(x["v"]))))) for x in r["scalars"]],
+                 unit=s_(r.get("unit")), category=s_(r.get("category")))
+    elif kind == "derived":
+        d = dict(op="derived")  # never sent: a derived source only ever appears as the pre-state of a single step
     return d
 
 
@@ -316,6 +332,31 @@ _PYOP = {"sum": lambda a, b: a + b, "sub": lambda a, b: a - b, "mul": lambda a, 
 RO_ATTRS = ("dimension", "values", "unit", "category", "quantity_type")
 
 
+class Plain:
+    """a result that is neither a FixedArray nor a Scalar: ("int", n), ("num", x), ("seq", (kind, numbers)),
+    ("bool", b), ("none", None)"""
+
+    def __init__(self, tag, value):
+        self.tag, self.value = tag, value
+
+
+def _kind_of(v):
+    import numpy
+
+    return K_LIST if isinstance(v, list) else K_TUPLE if isinstance(v, tuple) else K_ND if isinstance(v, numpy.ndarray) else type(v).__name__
+
+
+def mk_foreign(src, what):
+    """something that is not a FixedArray, to compare one with"""
+    from barril.units import Array
+
+    if what == "array":   # a plain Array with the very same values and quantity
+        return Array(src.GetQuantity(), src.values)
+    if what == "values":
+        return src.values
+    return {"number": 3.0, "none": None, "str": "FixedArray"}[what]
+
+
 def run_op(src, o, store=None):
     """One operation on the real object `src`; returns the result (FixedArray or Scalar) or raises."""
     import numpy
@@ -323,8 +364,9 @@ def run_op(src, o, store=None):
 
     do = o["do"]
     if do == "copy":
-        return {"copy": copy.copy, "deepcopy": copy.deepcopy, "Copy": lambda x: x.Copy()}[o.get("how", "copy")](src)
-    if do == "createCopy":
+        return {"copy": copy.copy, "deepcopy": copy.deepcopy, "Copy": lambda x: x.Copy(),
+                "CreateCopyInstance": lambda x: x.CreateCopyInstance()}[o.get("how", "copy")](src)
+    if do in ("createCopy", "createCopyKw"):
         kw = {}
         if o.get("values") is not None:
             kw["values"] = mk_vals(o["values"])
@@ -332,7 +374,30 @@ def run_op(src, o, store=None):
             kw["unit"] = o["unit"]
         if o.get("category") is not None:
             kw["category"] = o["category"]
+        if do == "createCopyKw":
+            from barril.units import UnitDatabase
+
+            kw[o["extra"]] = {"dimension": o.get("n", src.dimension), "value": [0.0] * o.get("n", src.dimension),
+                              "unit_database": UnitDatabase.GetSingleton()}[o["extra"]]
+        if o.get("pos"):  # the same call with positional arguments
+            return src.CreateCopy(mk_vals(o.get("values")), o.get("unit"), o.get("category"))
         return src.CreateCopy(**kw)
+    if do == "len":
+        return Plain("int", len(src))
+    if do == "iter":
+        return Plain("seq", (K_LIST, list(iter(src))))
+    if do == "getItem":
+        return Plain("num", src[o["index"]])
+    if do == "getSlice":
+        got = src[slice(*o["slice"])]
+        return Plain("seq", (_kind_of(got), list(got)))
+    if do == "checkValues":
+        kw = {} if o.get("dimension") is None else {"dimension": o["dimension"]}
+        return Plain("none", src.CheckValues(mk_vals(o["values"]), **kw))
+    if do == "eq":
+        how = o.get("how", "==")
+        other = store[o["other"]] if o["other"] != "foreign" else mk_foreign(src, o.get("foreign", "array"))
+        return Plain("bool", (src == other) if how == "==" else (not (src != other)))
     if do == "pickle":
         return pickle.loads(pickle.dumps(src))
     if do == "arith":
@@ -366,6 +431,30 @@ def run_op(src, o, store=None):
     raise ValueError(do)
 
 
+def _is_empty_state(st):
+    return st["cat"] == "0" and st["unit"] == "0"
+
+
+def arith_in_domain(o, src_state, store_states=None):
+    """Mirror of the driver's `arithInDomain` (the quantities for which the model computes numbers and quantity of an
+    arithmetic result); outside it the request is sent as `arithShape` and only class / dimension / length /
+    container are compared."""
+    rhs = o["rhs"]
+    if "other" in rhs:
+        other_empty, left = _is_empty_state(store_states[rhs["other"]]), True
+    elif "arr" in rhs:
+        other_empty, left = rhs["arr"]["q"] == "empty", True
+    else:
+        other_empty, left = True, rhs["left"]
+    q1e, q2e = (_is_empty_state(src_state), other_empty) if left else (other_empty, _is_empty_state(src_state))
+    aop = o["aop"]
+    if aop in ("sum", "sub"):
+        return True
+    if aop == "mul":
+        return q1e or q2e
+    return q2e
+
+
 def op_line(o, src_state, src_cls, store_states=None):
     do = o["do"]
     d = dict(op=do, cls=cls_line(src_cls), src=state_line(src_state))
@@ -374,9 +463,25 @@ def op_line(o, src_state, src_cls, store_states=None):
         d.update(values=None, unit=None, category=None)
     elif do == "createCopy":
         d.update(values=vals_line(o.get("values")), unit=s_(o.get("unit")), category=s_(o.get("category")))
+    elif do == "createCopyKw":
+        d.update(values=vals_line(o.get("values")), unit=s_(o.get("unit")), category=s_(o.get("category")), extra=o["extra"])
+    elif do == "getItem":
+        d.update(index=o["index"])
+    elif do == "getSlice":
+        d.update(slice=dict(zip(("start", "stop", "step"), o["slice"])))
+    elif do == "checkValues":
+        d.update(values=vals_line(o["values"]), dimension=o.get("dimension"))
+    elif do == "eq":
+        if o["other"] == "foreign":
+            d.update(other="foreign")
+        else:   # the model's store for this request is just the array compared with
+            st = store_states[o["other"]]
+            d.update(other=0, others=[dict(cls="none", src=state_line(st))])
     elif do == "arith":
         rhs = o["rhs"]
         d["aop"] = o["aop"]
+        if not arith_in_domain(o, src_state, store_states):
+            d["op"] = "arithShape"   # a derived result: the model predicts class, dimension, length and container
         if "other" in rhs:
             st = store_states[rhs["other"]]
             d["rhs"] = dict(arr=dict(k=st["k"], xs=st["xs"], q=state_line(st)["q"]))
@@ -409,6 +514,16 @@ def canon_result(r):
 
     if isinstance(r, Scalar):
         return dict(scalar=dict(unit=str(sym(r.GetUnit())), cat=str(sym(r.GetCategory())), v=qstr(exact(float(r.GetValue())))))
+    if isinstance(r, Plain):
+        if r.tag == "int":
+            return dict(plain=dict(int=int(r.value)) if isinstance(r.value, int) and not isinstance(r.value, bool) else dict(odd=repr(r.value)))
+        if r.tag == "num":
+            return dict(plain=dict(num=qstr(num_exact(r.value))))
+        if r.tag == "seq":
+            return dict(plain=dict(seq=r.value[0], xs=[qstr(num_exact(v)) for v in r.value[1]]))
+        if r.tag == "bool":
+            return dict(plain=dict(bool=r.value) if isinstance(r.value, bool) else dict(odd=repr(r.value)))
+        return dict(plain=dict(none=True) if r.value is None else dict(odd=repr(r.value)))
     return dict(ok=canon(r), cls=cls_name(r))
 
 
@@ -436,6 +551,7 @@ def nums(rng, n, nonzero=False):
     return out
 
 
+QU = dict(cat="Unknown", unit="<unknown>")      # the unknown quantity: a category of its own with one unit
 QL = dict(cat="length", unit="m")
 QD = dict(cat="depth", unit="ft")
 QC = dict(cat="length", unit="cm")
@@ -493,6 +609,21 @@ def construction_cases(ctx, rng):
             yield dict(op="make", _t=dict(route="cwq", cls=cls, q=QL, value=v, values=v))
         yield dict(op="make", _t=dict(route="cwq", cls=cls, q=QL))
         yield dict(op="make", _t=dict(route="cwq", cls=cls, q=QL, dimension=3))
+        # the unknown quantity through every form
+        for d in DIMS:
+            v = vspec(rng.choice(KINDS), nums(rng, max(d, 0)))
+            for r in (dict(form="cat", c={"str": "Unknown"}, nargs=1), dict(form="cat", c={"qty": QU}, nargs=1),
+                      dict(form="val", values=v, unit="<unknown>"), dict(form="cat", c={"str": "Unknown"}, values=v, unit="<unknown>"),
+                      dict(form="cat", c={"qty": QU}, values=v, nargs=2), dict(form="val", values=v, unit="m", category="Unknown")):
+                yield dict(op="make", _t=dict(route="init", cls=cls, dim=d, **r))
+            yield dict(op="make", _t=dict(route="cwq", cls=cls, q=QU, values=v, dimension=d))
+        # FixedArray.FromScalars (inherited from Array): no route to a FixedArray
+        for n in (0, 1, 2, 3):
+            for sq in ((QL,), (QL, QC), (QD, QL), (QL, QK), ("empty",), (QC, "empty")):
+                scalars = [dict(q=sq[i % len(sq)], v=enc(x)) for i, x in enumerate(nums(rng, n))]
+                for kw in ({}, dict(unit="cm"), dict(category="depth"), dict(unit="ft", category="depth"), dict(unit="kg"),
+                           dict(unit="nope"), dict(unit=""), dict(unit="m", category="nope")):
+                    yield dict(op="make", _t=dict(route="fromScalars", cls=cls, scalars=scalars, as_iter=(n == 2), **kw))
     # the internal constructor on an object of a class without the `_dimension` class attribute
     for v in [vspec(k, nums(rng, n)) for k in KINDS for n in LENS] + ["unsized", None]:
         for dimension in (None,) + DIMS:
@@ -524,17 +655,20 @@ def single_op_cases(ctx, rng):
     """Every operation on a grid of sources (the exhaustive part, one step)."""
     for dim in (2, 3, 4):
         for kind in KINDS:
-            for q in (QL, QD, "empty"):
+            for q in (QL, QD, "empty", QU):
                 for cls in (("none", "v3") if dim == 3 else ("none",)):
+                    if q is QU and (dim == 4 or cls == "v3"):
+                        continue
                     src = make_source(rng, dim, kind, q, cls)
 
                     def one(o):
                         return dict(op="step", _t=dict(src=src, o=o))
 
                     yield one(dict(do="pickle"))
-                    for how in ("copy", "deepcopy", "Copy"):
+                    for how in ("copy", "deepcopy", "Copy", "CreateCopyInstance"):
                         yield one(dict(do="copy", how=how))
                     yield one(dict(do="createCopy"))
+                    yield from extra_single_ops(rng, src, dim, kind, one)
                     for k in KINDS:
                         for n in LENS:
                             v = vspec(k, nums(rng, n))
@@ -574,10 +708,127 @@ def single_op_cases(ctx, rng):
                                 yield one(dict(do="changingIndex", index=index, uvu=uvu, value=dict(tup=tup)))
 
 
+SLICE_PARTS = (None, None, 0, 1, 2, 3, -1, -2, -3, 5, -5, 9, -9)
+SLICE_STEPS = (None, None, 1, 2, 3, -1, -2, -3, 0, 7, -7)
+
+
+def all_slices():
+    for a in (None, 0, 1, 2, -1, -2, 5, -5):
+        for b in (None, 0, 1, 3, -1, -3, 5, -5):
+            for c in (None, 1, 2, -1, -2, 0):
+                yield [a, b, c]
+
+
+def random_slice(rng):
+    return [rng.choice(SLICE_PARTS), rng.choice(SLICE_PARTS), rng.choice(SLICE_STEPS)]
+
+
+def derived_sources(rng):
+    """FixedArrays with a derived quantity (m2, m/s, 1/m, m.kg ...), obtained by real arithmetic"""
+    for dim in (2, 3):
+        for kind in KINDS:
+            a = make_source(rng, dim, kind, QL, "none")
+            for aop, qb in (("mul", QL), ("mul", QK), ("div", QK), ("div", QC), ("floordiv", QK)):
+                b = make_source(rng, dim, rng.choice(KINDS), qb, "none")
+                yield dict(route="derived", cls="none", aop=aop, a=a, b=b), dim
+
+
+def extra_single_ops(rng, src, dim, kind, one):
+    """the rest of the public surface: keywords of CreateCopy, len / iter / indexing / slicing, the public
+    CheckValues, ==, and arithmetic whose result is a derived quantity (class, dimension, length, container)"""
+    v = vspec(rng.choice(KINDS), nums(rng, dim))
+    for extra in ("dimension", "value", "unit_database"):
+        for n in (dim, dim + 1):
+            yield one(dict(do="createCopyKw", extra=extra, n=n))
+            yield one(dict(do="createCopyKw", extra=extra, n=n, values=v))
+            yield one(dict(do="createCopyKw", extra=extra, n=n, values=vspec(K_LIST, nums(rng, dim + 1)), unit="cm"))
+            yield one(dict(do="createCopyKw", extra=extra, n=n, unit="ft", category="depth"))
+    for kw in (dict(values=v), dict(values=v, unit="cm"), dict(values=v, unit="ft", category="depth"), dict(unit="cm"),
+               dict(category="depth"), dict(values=vspec(K_TUPLE, nums(rng, dim - 1)))):
+        yield one(dict(do="createCopy", pos=True, **kw))
+    yield one(dict(do="len"))
+    yield one(dict(do="iter"))
+    for index in range(-7, 7):
+        yield one(dict(do="getItem", index=index))
+    for sl in all_slices():
+        yield one(dict(do="getSlice", slice=sl))
+    for k in KINDS:
+        for n in LENS:
+            yield one(dict(do="checkValues", values=vspec(k, nums(rng, n))))
+            yield one(dict(do="checkValues", values=vspec(k, nums(rng, n)), dimension=rng.choice((n, n, dim, 0, 1, -1, 3))))
+    yield one(dict(do="checkValues", values="unsized"))
+    yield one(dict(do="checkValues", values="unsized", dimension=dim))
+    for what in ("array", "values", "number", "none", "str"):
+        for how in ("==", "!="):
+            yield one(dict(do="eq", other="foreign", foreign=what, how=how))
+    # arithmetic with a derived result: every operator x Array / FixedArray operands of length 0..6 x numbers and bare
+    # ndarrays on the left of / and //
+    for aop in ("mul", "div", "floordiv"):
+        for n in LENS:
+            for oq in (QL, QK, QC):
+                yield one(dict(do="arith", aop=aop, rhs=dict(arr=arr_operand(rng, n, None, oq))))
+        for x in nums(rng, 2, nonzero=True):
+            yield one(dict(do="arith", aop=aop, rhs=dict(num=enc(x), left=False)))
+        for n in LENS:
+            yield one(dict(do="arith", aop=aop, rhs=dict(nd=[enc(float(x)) for x in nums(rng, n, nonzero=True)], left=False)))
+
+
+def derived_op_cases(ctx, rng):
+    """operations that stay in the array's own unit, on sources whose quantity is DERIVED: pickle (`__reduce__` hands
+    the derived Quantity to the constructor), copies, CreateCopy with and without new values, indexing, IndexAsScalar,
+    ChangingIndex with a plain number, + and - with numbers / bare ndarrays"""
+    for src, dim in derived_sources(rng):
+        def one(o):
+            return dict(op="step", _t=dict(src=src, o=o))
+
+        yield one(dict(do="pickle"))
+        for how in ("copy", "deepcopy", "Copy", "CreateCopyInstance"):
+            yield one(dict(do="copy", how=how))
+        yield one(dict(do="createCopy"))
+        for k in KINDS:
+            for n in (0, 1, dim, dim + 1):
+                yield one(dict(do="createCopy", values=vspec(k, nums(rng, n))))
+        yield one(dict(do="createCopyKw", extra="unit_database"))
+        yield one(dict(do="len"))
+        yield one(dict(do="iter"))
+        for index in range(-4, 4):
+            yield one(dict(do="getItem", index=index))
+            yield one(dict(do="indexAsScalar", index=index))
+            yield one(dict(do="changingIndex", index=index, value=dict(num=enc(nums(rng, 1)[0]))))
+            yield one(dict(do="changingIndex", index=index, value=dict(num=enc(nums(rng, 1)[0])), uvu=False))
+        for _ in range(6):
+            yield one(dict(do="getSlice", slice=random_slice(rng)))
+        for n in (dim - 1, dim, dim + 1):
+            yield one(dict(do="checkValues", values=vspec(rng.choice(KINDS), nums(rng, n))))
+        for aop in ("sum", "sub"):
+            for left in (True, False):
+                yield one(dict(do="arith", aop=aop, rhs=dict(num=enc(nums(rng, 1)[0]), left=left)))
+                for n in (1, dim, dim + 1):
+                    yield one(dict(do="arith", aop=aop, rhs=dict(nd=[enc(float(x)) for x in nums(rng, n)], left=left)))
+
+
 def random_op(rng, store_size):
     r = rng.random()
+    if r < 0.05:
+        k = rng.random()
+        if k < 0.2:
+            return dict(do="len")
+        if k < 0.3:
+            return dict(do="iter")
+        if k < 0.5:
+            return dict(do="getItem", index=rng.randint(-6, 5))
+        if k < 0.7:
+            return dict(do="getSlice", slice=random_slice(rng))
+        if k < 0.85:
+            o = dict(do="checkValues", values=vspec(rng.choice(KINDS), nums(rng, rng.choice((1, 2, 3, 3, 4)))))
+            if rng.random() < 0.3:
+                o["dimension"] = rng.choice((2, 3, 4))
+            return o
+        if store_size > 0 and k < 0.97:
+            return dict(do="eq", other=rng.randrange(store_size), how=rng.choice(("==", "!=")))
+        return dict(do="createCopyKw", extra=rng.choice(("dimension", "value", "unit_database")))
     if r < 0.06:
-        return dict(do="copy", how=rng.choice(("copy", "deepcopy", "Copy")))
+        return dict(do="copy", how=rng.choice(("copy", "deepcopy", "Copy", "CreateCopyInstance")))
     if r < 0.12:
         return dict(do="pickle")
     if r < 0.32:
@@ -626,6 +877,7 @@ def chain_cases(ctx, rng, n):
         cmds = [dict(make=make_source(rng))]
         if rng.random() < 0.5:
             r = rng.choice((dict(route="cea", cls="none", dimension=rng.choice((1, 2, 3, 3))),
+                            dict(route="fromScalars", cls=rng.choice(("none", "v3")), scalars=[dict(q=rng.choice((QL, QC, QD)), v=enc(x)) for x in nums(rng, rng.choice((0, 2, 3)))]),
                             dict(route="cwq", cls=rng.choice(("none", "v3")), q=rng.choice(QTYS), positional=True,
                                  values=vspec(rng.choice(KINDS), nums(rng, rng.choice((1, 2, 3, 3)), nonzero=True))),
                             make_source(rng)))
@@ -644,6 +896,47 @@ def curve_array(rng, rows, w=None, kind=None, fixed=None):
             fixed = rows >= 2 and rng.random() < 0.4
         return dict(cls="FixedArray" if fixed else "Array", k=kind or rng.choice(KINDS), v=[enc(x) for x in nums(rng, rows)], q=q)
     return dict(cls="Array", k=kind or rng.choice(KINDS), w=w, v=[[enc(float(x)) for x in nums(rng, w)] for _ in range(rows)], q=q)
+
+
+def random_curve_read(rng, p):
+    k = rng.random()
+    if k < 0.4:
+        return dict(get=rng.choice((0, -1, 1, p - 1, p, -p, -p - 1, rng.randint(-8, 8))))
+    if k < 0.75:
+        return dict(slice=random_slice(rng))
+    return dict(length=True) if k < 0.85 else dict(repr=True)
+
+
+def curve_read_cases(ctx):
+    """Reading a Curve: `curve[i]` for every index -n-2..n+1, every slice of a small grid, GetLength() and repr(), on
+    curves of 0..4 points over every pair of container shapes, on curves of 20 / 21 / 22 / 30 points (the repr stops
+    after 21 pairs) - fresh, and again after an accepted and after a rejected setter."""
+    rng = ctx.fresh_rng("C11curveread")
+    shapes = [(None, K_LIST), (None, K_TUPLE), (None, K_ND), (None, "fixed"), (2, K_LIST), (3, K_TUPLE), (2, K_ND)]
+
+    def arr(rows, w, k):
+        if k == "fixed":
+            return curve_array(rng, rows, None, rng.choice(KINDS), fixed=rows >= 2)
+        return curve_array(rng, rows, w, k, fixed=False) if w is None else curve_array(rng, rows, w, k)
+
+    for n in (0, 1, 2, 3, 4):
+        for wi, ki in shapes:
+            for wd, kd in shapes:
+                arrs = [arr(n, wi, ki), arr(n, wd, kd), arr(n + 1, None, K_LIST), arr(n, None, K_TUPLE)]
+                reads = [dict(get=i) for i in range(-n - 2, n + 2)] + [dict(length=True), dict(repr=True)]
+                reads += [dict(slice=sl) for sl in all_slices() if rng.random() < 0.12]
+                yield dict(op="curve", _t=dict(arrs=arrs, image=0, domain=1, ops=reads))
+                # the same reads after a rejected and an accepted setter
+                yield dict(op="curve", _t=dict(arrs=arrs, image=0, domain=1, ctor=rng.choice(CURVE_CTORS), ops=[
+                    dict(set="image", via="method", a=2), dict(get=-1), dict(slice=random_slice(rng)), dict(length=True),
+                    dict(set="domain", via="attr", a=3), dict(get=0), dict(get=n), dict(slice=random_slice(rng)), dict(repr=True)]))
+    for n in (20, 21, 22, 30):
+        for wi, ki in ((None, K_LIST), (None, K_ND), (2, K_LIST)):
+            for wd, kd in ((None, K_TUPLE), (None, K_ND), (2, K_ND)):
+                arrs = [arr(n, wi, ki), arr(n, wd, kd)]
+                yield dict(op="curve", _t=dict(arrs=arrs, image=0, domain=1, ops=[
+                    dict(repr=True), dict(length=True), dict(get=n - 1), dict(get=-n), dict(get=n), dict(get=21), dict(slice=[None, None, 7]),
+                    dict(slice=[-1, None, -9]), dict(slice=[19, 23, None])]))
 
 
 def curve_cases(ctx, rng, n):
@@ -665,6 +958,9 @@ def curve_cases(ctx, rng, n):
         for _ in range(rng.randint(0, 10)):
             if rng.random() < 0.08:
                 ops.append(dict(copy=rng.choice(("copy", "deepcopy"))))
+                continue
+            if rng.random() < 0.3:
+                ops.append(random_curve_read(rng, p))
                 continue
             which = rng.choice(("image", "domain"))
             ops.append(dict(set=which, via=rng.choice(CURVE_VIAS[which]), a=rng.randrange(len(arrs))))
@@ -714,9 +1010,9 @@ def setup(ctx):
 def cases(ctx):
     rng = ctx.fresh_rng("C11corr")
     cid = 0
-    for gen in (construction_cases(ctx, rng), single_op_cases(ctx, rng),
+    for gen in (construction_cases(ctx, rng), single_op_cases(ctx, rng), derived_op_cases(ctx, rng),
                 chain_cases(ctx, rng, 500 if ctx.tier == "quick" else 20000),
-                curve_grid_cases(ctx), curve_cases(ctx, rng, 300 if ctx.tier == "quick" else 5000)):
+                curve_grid_cases(ctx), curve_read_cases(ctx), curve_cases(ctx, rng, 300 if ctx.tier == "quick" else 5000)):
         for c in gen:
             c["cid"] = cid
             cid += 1
@@ -725,8 +1021,8 @@ def cases(ctx):
 
 def search(ctx):
     rng = ctx.fresh_rng("C11search")
-    for gen in (construction_cases(ctx, rng), single_op_cases(ctx, rng), chain_cases(ctx, rng, 2000), curve_grid_cases(ctx),
-                curve_cases(ctx, rng, 1000)):
+    for gen in (construction_cases(ctx, rng), single_op_cases(ctx, rng), derived_op_cases(ctx, rng), chain_cases(ctx, rng, 2000), curve_grid_cases(ctx),
+                curve_read_cases(ctx), curve_cases(ctx, rng, 1000)):
         for c in gen:
             c["cid"] = -1
             yield c
@@ -740,6 +1036,8 @@ def _resolve(back, n):
 def _resolved_op(o, n):
     if o["do"] == "arith" and "other" in o["rhs"]:
         return dict(o, rhs=dict(other=_resolve(o["rhs"]["other"], n)))
+    if o["do"] == "eq" and o["other"] != "foreign":
+        return dict(o, other=_resolve(o["other"], n))
     return o
 
 
@@ -797,6 +1095,9 @@ def chain_lines(t, steps, states_at):
             if o["do"] == "arith" and "other" in o["rhs"]:
                 h.pop("rhs")
                 h["other"] = o["rhs"]["other"]
+            if o["do"] == "eq" and o["other"] != "foreign":
+                h.pop("others")
+                h["other"] = o["other"]
             hist.append(h)
         if "ok" in st["out"]:
             store_states.append(st["out"]["ok"])
@@ -903,6 +1204,71 @@ def copy_curve(c, how):
     return c2, problems
 
 
+def _elem(v):
+    """a number, or a point (tuple / ndarray row) as the list of its numbers"""
+    import numpy
+
+    if isinstance(v, (tuple, list, numpy.ndarray)):
+        return [qstr(num_exact(x)) for x in v]
+    return qstr(num_exact(v))
+
+
+def _seq(v):
+    return dict(k=_kind_of(v), elems=[_elem(x) for x in v])
+
+
+def parse_curve_repr(text, flat):
+    """`Curve(<unit>, <unit>)[(x, y) (x, y) ...  ... ]` -> units, the pairs (numbers read back exactly from their
+    shortest round-trip print; for arrays of points only counted) and whether the ellipsis is there"""
+    import re
+
+    m = re.match(r"^Curve\(([^,()]*), ([^,()]*)\)\[(.*)\]$", text, re.S)
+    if not m:
+        return dict(odd=text[:80])
+    body = m.group(3)
+    groups, depth, start, rest = [], 0, None, []
+    for pos, ch in enumerate(body):
+        if ch in "([":
+            if depth == 0 and ch == "(":
+                start = pos
+            depth += 1
+        elif ch in ")]":
+            depth -= 1
+            if depth == 0 and start is not None:
+                groups.append(body[start + 1:pos])
+                start = None
+        elif depth == 0:
+            rest.append(ch)
+    rest = "".join(rest).strip()
+    out = dict(iunit=str(sym(m.group(1))), dunit=str(sym(m.group(2))), n=len(groups), ellipsis=(rest == "..."))
+    if rest not in ("", "..."):
+        out["odd"] = rest[:40]
+    if flat:
+        items = []
+        for g in groups:
+            x, y = g.split(", ")
+            items.append([qstr(exact(float(x))), qstr(exact(float(y)))])
+        out["items"] = items
+    return out
+
+
+def curve_read(c, o, flat):
+    """one read of a Curve on the real code, canonical"""
+    if "get" in o:
+        d, i = c[o["get"]]
+        return dict(item=[_elem(d), _elem(i)])
+    if "slice" in o:
+        d, i = c[slice(*o["slice"])]
+        return dict(slices=[_seq(d), _seq(i)])
+    if "length" in o:
+        return dict(length=c.GetLength())
+    return dict(repr=parse_curve_repr(repr(c), flat))
+
+
+def is_read(o):
+    return any(k in o for k in ("get", "slice", "length", "repr"))
+
+
 def run_curve(t):
     arrs = [mk_curve_array(a) for a in t["arrs"]]
     ids = {id(a): i for i, a in enumerate(arrs)}
@@ -919,6 +1285,16 @@ def run_curve(t):
             c, problems = res
             steps.append(dict(copy=o["copy"], problems=problems + curve_reads(c)))
             continue
+        if is_read(o):
+            flat = all(a.get("w") is None for a in t["arrs"])
+            res, e = attempt(lambda: curve_read(c, o, flat))
+            st = dict(res="ok" if e is None else err_kind(e), image=str(ids.get(id(c.GetImage()), -1)),
+                      domain=str(ids.get(id(c.GetDomain()), -1)), ilen=str(len(c.GetImage().GetValues())),
+                      dlen=str(len(c.GetDomain().GetValues())), reads=curve_reads(c), read=True)
+            if e is None:
+                st["out"] = res
+            steps.append(st)
+            continue
         a = arrs[o["a"]]
         _, e = attempt(lambda: apply_setter(c, o, a))
         steps.append(dict(res="ok" if e is None else err_kind(e), image=str(ids.get(id(c.GetImage()), -1)),
@@ -934,8 +1310,23 @@ def model_line(c):
     if c["op"] == "curve":
         def carr(i):
             return dict(id=i, len=points_of(t["arrs"][i]), w=t["arrs"][i].get("w"))
-        return dict(op="curve", image=carr(t["image"]), domain=carr(t["domain"]),
-                    ops=[dict(set=o["set"], a=carr(o["a"])) for o in t["ops"] if "set" in o])
+
+        def content(i, a):   # what `GetValues()` of the array returns, known from how it was built
+            if a.get("w") is None:
+                elems = [qstr(exact(dec(x))) for x in a["v"]]
+            else:
+                elems = [[qstr(exact(float(dec(x)))) for x in row] for row in a["v"]]
+            return dict(id=i, k=a["k"], unit=str(sym("" if a["q"] == "empty" else a["q"]["unit"])), elems=elems)
+
+        def mop(o):
+            if "set" in o:
+                return dict(set=o["set"], a=carr(o["a"]))
+            if "slice" in o:
+                return dict(slice=dict(zip(("start", "stop", "step"), o["slice"])))
+            return {k: o[k] for k in ("get", "length", "repr") if k in o}
+        return dict(op="curveOps", image=carr(t["image"]), domain=carr(t["domain"]),
+                    arrs=[content(i, a) for i, a in enumerate(t["arrs"])],
+                    ops=[mop(o) for o in t["ops"] if "copy" not in o])
     chain = t if c["op"] == "chain" else dict(cmds=[dict(make=t["src"]), dict(src=0, o=t["o"])])
     steps = _TRACE.pop(c.get("cid", -1), None)
     if steps is None:
@@ -986,6 +1377,10 @@ def cmp_outcome(io, mo, exact_numbers):
         if ("err" in io) != ("err" in mo):
             return "one side fails: impl=%s model=%s" % ({k: io[k] for k in io if k != "ok"} or "ok", mo if "err" in mo else "ok")
         return None if io["err"] == mo["err"] else "error kinds differ: impl %s (%s) model %s" % (io["err"], io.get("exc"), mo["err"])
+    if "plain" in io:
+        if io["plain"] != mo["ok"]:
+            return "plain result differs: impl %s model %s" % (io["plain"], mo["ok"])
+        return None
     if "scalar" in io:
         s, m = io["scalar"], mo["ok"]
         if "v" not in m:
@@ -997,14 +1392,40 @@ def cmp_outcome(io, mo, exact_numbers):
         return None
     if "v" in mo["ok"]:
         return "model returned a Scalar, impl an array"
+    if "dim" not in mo["ok"]:
+        return "model returned a plain value %s, impl an array" % (mo["ok"],)
+    if "q" not in mo["ok"]:   # arithShape: class (checked by the caller), dimension, length and container
+        real = io["ok"]
+        for k in ("dim", "len", "k"):
+            if str(real[k]) != str(mo["ok"][k]):
+                return "%s differs: impl %s model %s" % (k, real[k], mo["ok"][k])
+        return None
     return cmp_array(io["ok"], mo["ok"], exact_numbers)
+
+
+def cmp_curve_read(real, mo, flat):
+    """a read of a Curve: everything is copied, so numbers are compared exactly"""
+    if real is None:
+        return "no result on the real code"
+    if "repr" in mo:
+        r, m = real.get("repr", {}), mo["repr"]
+        if "odd" in r:
+            return "repr not understood: %s" % r["odd"]
+        if r["iunit"] != m["iunit"] or r["dunit"] != m["dunit"]:
+            return "units in the repr differ"
+        if r["n"] != len(m["items"]) or r["ellipsis"] != m["ellipsis"]:
+            return "repr shows %d pairs%s, model %d%s" % (r["n"], " ..." if r["ellipsis"] else "", len(m["items"]), " ..." if m["ellipsis"] else "")
+        if flat and r["items"] != m["items"]:
+            return "pairs in the repr differ"
+        return None
+    return None if real == mo else "results differ"
 
 
 def op_exact(o):
     do = o["do"]
     if do in ("pickle", "copy"):
         return True
-    if do == "createCopy":
+    if do in ("createCopy", "createCopyKw"):
         return o.get("unit") is None or o.get("values") is not None
     return False
 
@@ -1012,7 +1433,7 @@ def op_exact(o):
 def _outcome(out):
     if not isinstance(out, dict):
         return "?"
-    return "err:" + out["err"] if "err" in out else ("scalar" if "scalar" in out else "ok")
+    return "err:" + out["err"] if "err" in out else ("scalar" if "scalar" in out else "plain" if "plain" in out else "ok")
 
 
 def _route_key(r):
@@ -1023,6 +1444,11 @@ def _route_key(r):
         first = "str" if (r["form"] == "cat" and "str" in r["c"]) else ("qty" if r["form"] == "cat" else "values")
         return "init/%s-first values=%s dim%s2 attr=instance kw=no" % (
             first, "no" if v is None else ("unsized" if v == "unsized" else "yes"), "<" if r["dim"] < 2 else ">=")
+    if kind == "fromScalars":
+        return "FromScalars scalars=%s unit=%s category=%s" % ("none" if not r["scalars"] else "some", "no" if r.get("unit") is None else "yes",
+                                                               "no" if r.get("category") is None else "yes")
+    if kind == "derived":
+        return "derived source"
     attr = {"none": "None", "v3": "pinned", "v1": "pinned", "missing": "absent"}[r["cls"]]
     if kind == "internal" and r.get("inst") is not None:
         attr = "instance"
@@ -1037,6 +1463,17 @@ def _op_key(o):
     if do == "createCopy":
         return "createCopy values=%s unit=%s category=%s" % tuple(
             "no" if o.get(k) is None else "yes" for k in ("values", "unit", "category"))
+    if do == "createCopyKw":
+        return "createCopy(..., %s=...)" % o["extra"]
+    if do == "getItem":
+        return "array[i] index%s0" % ("<" if o["index"] < 0 else ">=")
+    if do == "getSlice":
+        st = o["slice"][2]
+        return "array[a:b:c] step %s" % ("None" if st is None else "0" if st == 0 else "<0" if st < 0 else ">0")
+    if do == "checkValues":
+        return "CheckValues dimension=%s" % ("no" if o.get("dimension") is None else "yes")
+    if do == "eq":
+        return "array == %s" % ("foreign" if o["other"] == "foreign" else "array")
     if do == "arith":
         rhs = o["rhs"]
         kind = "array" if ("arr" in rhs or "other" in rhs) else ("number" if "num" in rhs else "ndarray")
@@ -1088,6 +1525,10 @@ def _count(ctx, c, io):
                 if "copy" in o:
                     hit("curve: %s -> %s" % (o["copy"], "ok" if not s.get("problems") else "problem"))
                     continue
+                if is_read(o):
+                    what = "curve[i]" if "get" in o else "curve[a:b:c]" if "slice" in o else "GetLength()" if "length" in o else "repr(curve)"
+                    hit("curve: %s -> %s" % (what, s["res"] if s["res"] == "ok" else "err:" + s["res"]))
+                    continue
                 hit("curve: %s (%s) -> %s" % (setter_name(o), shape_name(t["arrs"][o["a"]]),
                                               s["res"] if s["res"] == "ok" else "err:" + s["res"]))
 
@@ -1113,7 +1554,7 @@ def agree(c, io, mo, ctx):
             return "copy did not return the object itself"
         why = cmp_outcome(io["out"], mo, op_exact(o))
         if why is None and "ok" in io["out"]:
-            want = t["src"]["cls"] if o["do"] in ("createCopy", "arith", "copy") else "none"
+            want = t["src"].get("cls", "none") if o["do"] in ("createCopy", "createCopyKw", "arith", "copy") else "none"
             if io["out"]["cls"] != want:
                 return "class of the result: %s, expected %s" % (io["out"]["cls"], want)
         return why
@@ -1140,7 +1581,7 @@ def agree(c, io, mo, ctx):
             return "history answered %d steps for %d" % (len(hs), len(executed))
         for i, ((cmd, s), m) in enumerate(zip(executed, hs)):
             out = s["out"]
-            if "scalar" in out:
+            if "scalar" in out or "plain" in out:
                 continue
             if ("err" in out) != ("err" in m):
                 return "history step %d: impl %s, model %s" % (i, "fails" if "err" in out else "ok", m)
@@ -1163,9 +1604,15 @@ def agree(c, io, mo, ctx):
         setters = [st for st in io["steps"] if "copy" not in st]   # copies are no transition of the model
         if len(setters) != len(mo["steps"]):
             return "number of steps differs"
+        flat = all(a.get("w") is None for a in t["arrs"])
         for i, (a, b) in enumerate(zip(setters, mo["steps"])):
-            if {k: a[k] for k in b} != b:
-                return "curve setter %d: impl %s model %s" % (i, a, b)
+            if {k: a.get(k) for k in b if k != "out"} != {k: b[k] for k in b if k != "out"}:
+                return "curve call %d: impl %s model %s" % (i, a, b)
+            if not a.get("read") or "out" not in b:
+                continue
+            why = cmp_curve_read(a.get("out"), b["out"], flat)
+            if why:
+                return "curve call %d: %s (impl %s model %s)" % (i, why, a.get("out"), b["out"])
         return None
     return "unknown case kind"
 
@@ -1318,12 +1765,26 @@ def _check_op(src, o, store):
     if snapshot(src) != before:
         return dict(clause="an operation leaves its source unchanged", op=o, before=str(before[:6]), after=str(snapshot(src)[:6])), None
     do = o["do"]
+    if do == "checkValues" and isinstance(o.get("values"), dict):
+        # the guard itself: a container is accepted exactly when it has `dimension` elements, refused with ValueError
+        want = o["dimension"] if o.get("dimension") is not None else src.dimension
+        fits = len(o["values"]["v"]) == want
+        if fits != (e is None) or (e is not None and not isinstance(e, ValueError)):
+            return dict(clause="CheckValues accepts exactly the containers of `dimension` elements and refuses the others with ValueError",
+                        op=o, dimension=src.dimension, observed="accepted" if e is None else repr(e)), None
+        return None, None
+    if e is None and do in ("len", "iter"):
+        n = r.value if do == "len" else len(r.value[1])
+        if n != src.dimension:
+            return dict(clause="every obtainable FixedArray has len(values) == dimension >= 2", op=o,
+                        observed="%s gives %r for dimension %r" % ("len(array)" if do == "len" else "iterating", n, src.dimension)), None
+        return None, None
     if e is not None:
         # ValueError is demanded only of a call that is legal apart from its sizes (a unit the source's
         # category does not accept, or operands of different dimensions, may fail their own way first)
         size_bad = False
         if do == "createCopy" and isinstance(o.get("values"), dict) and o.get("category") is None and \
-                (o.get("unit") is None or _unit_ok_for(src, o.get("unit"))):
+                (o.get("unit") is None or _unit_ok_for(src, o.get("unit"))) and not src.GetQuantity().IsDerived():
             size_bad = len(o["values"]["v"]) != src.dimension
         if do == "arith":
             rhs = o["rhs"]
@@ -1478,6 +1939,11 @@ def _check_curve(t):
                             observed=problems or "the copy holds other arrays")
             c = c2
             continue
+        if is_read(o):
+            f = _check_curve_read(c, o, npts, shapes, pos)
+            if f:
+                return f
+            continue
         a = arrs[o["a"]]
         held = (c.GetImage(), c.GetDomain())
         want_ok = npts[id(a)] == (npts[id(held[1])] if o["set"] == "image" else npts[id(held[0])])
@@ -1499,6 +1965,63 @@ def _check_curve(t):
         bad = curve_reads(c)
         if bad:
             return dict(clause="curve.image / curve.domain / GetLength() show what GetImage() / GetDomain() hold", at=pos, op=o, call=call, observed=bad)
+    return None
+
+
+def _same_elem(a, b):
+    import numpy
+
+    try:
+        return bool(numpy.array_equal(numpy.asarray(a, dtype=float), numpy.asarray(b, dtype=float)))
+    except Exception:
+        return False
+
+
+def _check_curve_read(c, o, npts, shapes, pos):
+    """Reading never changes what a Curve holds; `GetLength()` is the common number of points; `curve[i]` pairs the
+    elements image and domain have at ONE position (which of the two comes first is not demanded here) and exists
+    exactly for -n <= i < n; a slice takes equally many elements of both."""
+    held = (c.GetImage(), c.GetDomain())
+    n = npts.get(id(held[0]))
+    call = "%s on a curve holding (%s, %s)" % (o, shapes.get(id(held[0])), shapes.get(id(held[1])))
+    r, e = attempt(lambda: (c[o["get"]] if "get" in o else c[slice(*o["slice"])] if "slice" in o else c.GetLength() if "length" in o else repr(c)))
+    if c.GetImage() is not held[0] or c.GetDomain() is not held[1]:
+        return dict(clause="reading a Curve leaves it unchanged", at=pos, call=call)
+    if n is None or npts.get(id(held[1])) != n:
+        return dict(clause="a Curve never holds an image and a domain of different lengths", at=pos, call=call,
+                    points=(n, npts.get(id(held[1]))))
+    if "length" in o:
+        if e is not None or r != n:
+            return dict(clause="GetLength() is the number of points of image and domain", at=pos, call=call, observed=repr(e) if e else r, want=n)
+        return None
+    if "repr" in o:
+        if e is not None or not isinstance(r, str):
+            return dict(clause="a Curve has a repr", at=pos, call=call, observed=repr(e))
+        return None
+    iv, dv = held[0].GetValues(), held[1].GetValues()
+    if "get" in o:
+        i = o["get"]
+        j = i if i >= 0 else n + i
+        if not (0 <= j < n):
+            if e is None or not isinstance(e, IndexError):
+                return dict(clause="curve[i] exists only for an index of the curve (IndexError otherwise)", at=pos, call=call,
+                            observed=repr(e) if e else "returned %r" % (r,))
+            return None
+        if e is not None:
+            return dict(clause="curve[i] exists for every index of the curve", at=pos, call=call, observed=repr(e))
+        ok = isinstance(r, tuple) and len(r) == 2 and (
+            (_same_elem(r[0], dv[j]) and _same_elem(r[1], iv[j])) or (_same_elem(r[0], iv[j]) and _same_elem(r[1], dv[j])))
+        if not ok:
+            return dict(clause="curve[i] pairs the i-th element of the domain with the i-th element of the image", at=pos, call=call,
+                        index=j, observed=repr(r)[:120], want=repr((dv[j], iv[j]))[:120])
+        return None
+    step = o["slice"][2]
+    if step == 0:
+        return None if isinstance(e, ValueError) else dict(clause="a slice with step 0 is a ValueError", at=pos, call=call, observed=repr(e))
+    if e is not None or not (isinstance(r, tuple) and len(r) == 2) or len(r[0]) != len(r[1]) or \
+            len(r[0]) != len(range(*slice(*o["slice"]).indices(n))):
+        return dict(clause="a slice of a Curve takes the same positions of domain and image", at=pos, call=call,
+                    observed=repr(e) if e else "lengths %s" % ([len(x) for x in r] if isinstance(r, tuple) else r,))
     return None
 
 
